@@ -215,10 +215,13 @@ def process_batch(rec, items, wd, tag):
             rec.violation(f"emitted-c-{st}", {"stderr": errtail[-600:], **it.describe()})
             continue
         it.c = dump
+        from ..common import note_current
+
+        note_current(it.describe())
         try:
             jm = native.JitModule(it.module)
             it.jit = native.jit_run(jm, [cdrv.TensorSpec(s.name, s.dims, s.modes, s.ordering, s.indices, list(s.vals) if s.vals is not None else None, s.role) for s in it.specs],
-                                    it.calls, it.revalues)
+                                    it.calls, it.revalues, guard=True)
         except Exception as exc:  # noqa: BLE001
             rec.violation(f"jit-raised:{type(exc).__name__}", {"error": str(exc)[:300], **it.describe()})
             continue
